@@ -10,6 +10,13 @@ UNITS = [
          no_dfcc=True, remove_bodies=[f for f in _hs if f != "bidib_set_train_speed_internal"], extra_flags=["--nondet-static"], covers=2, min_obligations=8,
          stubbed_contracts=["bidib_state_get_train_ref", "bidib_state_get_board_ref", "bidib_state_get_train_state_ref", "bidib_send_cs_drive_intern", "bidib_lib_speed_to_dcc_format"],
          note="every int speed (incl. out of range), NULL ids, unknown train, unknown/disconnected/non-track-output board; loop-free => complete"),
+    Unit(name="C09.emergency_stop", src="units/C09/train_speed.c", defines=["VP_H_ESTOP"], functions=["bidib_emergency_stop_train"], props=["C09"],
+         no_dfcc=True, remove_bodies=[f for f in _hs if f != "bidib_emergency_stop_train"], extra_flags=["--nondet-static"], covers=2, min_obligations=8,
+         stubbed_contracts=["bidib_state_get_train_ref", "bidib_state_get_board_ref", "bidib_send_cs_drive_intern"], note="loop-free: complete"),
+    Unit(name="C09.calibrated_speed", src="units/C09/train_speed.c", defines=["VP_H_CALIBRATED"], functions=["bidib_set_calibrated_train_speed", "bidib_set_train_speed_internal"], props=["C09"],
+         no_dfcc=True, remove_bodies=[f for f in _hs if f not in ("bidib_set_calibrated_train_speed", "bidib_set_train_speed_internal")], extra_flags=["--nondet-static", "--unwind", "11"], covers=3, min_obligations=8,
+         stubbed_contracts=["bidib_state_get_train_ref", "bidib_state_get_board_ref", "bidib_state_get_train_state_ref", "bidib_send_cs_drive_intern", "bidib_lib_speed_to_dcc_format"],
+         note="every int level, calibrated or not; calibration content arbitrary within the configured range; loop-free function (harness loop over the 9 values only)"),
     Unit(name="C09.set_train_peripheral_range", src="units/C09/train_speed.c", defines=["VP_H_PERIPHERAL_RANGE"], functions=["bidib_set_train_peripheral"], props=["C09"],
          no_dfcc=True, remove_bodies=[f for f in _hs if f != "bidib_set_train_peripheral"], extra_flags=["--nondet-static", "--unwind", "34"], timeout=900, covers=1, min_obligations=6,
          stubbed_contracts=["bidib_state_get_train_ref", "bidib_state_get_board_ref", "bidib_send_cs_drive_intern"], note="every state value 2..255: rejected before any lookup"),
@@ -35,5 +42,6 @@ UNITS = [
         ("track_output_state_all", "VP_H_ALL", ["bidib_set_track_output_state_all"], ["C20", "C09", "C16"], "bounded", "3 boards with arbitrary content, distinct addresses; loop unwound completely"),
         ("track_output_state", "VP_H_ONE", ["bidib_set_track_output_state"], ["C09"], "proof", ""),
         ("booster_power_state", "VP_H_BOOSTER", ["bidib_set_booster_power_state"], ["C09"], "proof", ""),
+        ("request_reverser_state", "VP_H_REVERSER", ["bidib_request_reverser_state"], ["C09"], "proof", ""),
     ]
 ]
